@@ -6,9 +6,10 @@ git diff -- mashumaro > /tmp/confirm_$id.diff
 [ -s /tmp/confirm_$id.diff ] || { echo "no diff"; exit 2; }
 suite=$(PYTHONPATH=$wt /venv/bin/python -m pytest -q -p no:cacheprovider -n 12 tests 2>&1 | tail -1)
 PYTHONPATH=$wt /venv/bin/python demo_mutant.py > /tmp/confirm_$id.mut.out 2>&1; rc_mut=$?
-git stash -q
+# no `git stash`: refs/stash is shared between the worktrees of concurrently running sub-agents
+git apply -R /tmp/confirm_$id.diff
 PYTHONPATH=$wt /venv/bin/python demo_mutant.py > /tmp/confirm_$id.orig.out 2>&1; rc_orig=$?
-git stash pop -q
+git apply /tmp/confirm_$id.diff
 echo "$id suite: $suite | demo mutant rc=$rc_mut original rc=$rc_orig"
 mkdir -p /verif/seeded/$id
 cp /tmp/confirm_$id.diff /verif/seeded/$id/patch.diff
